@@ -129,6 +129,14 @@ ForceNoCopy(C) ==
                               IF C.cf[d][n].bl[i].st = "REP" THEN [C.cf[d][n].bl[i] EXCEPT !.h = "INVALID", !.st = "CHG"]
                               ELSE C.cf[d][n].bl[i]]]]]]
 
+(* -R, --force-realloc (state.c:2028): every synced block is loaded as a block whose parity has to be recomputed (BLK -> REP,
+   the hash stays trusted), so that every stable file is taken out and inserted again by the scan (compaction) *)
+ForceRealloc(C) ==
+    [C EXCEPT !.cf = [d \in D |-> [n \in DOMAIN C.cf[d] |->
+                         [C.cf[d][n] EXCEPT !.bl = [i \in 1..Len(C.cf[d][n].bl) |->
+                              IF C.cf[d][n].bl[i].st = "BLK" THEN [C.cf[d][n].bl[i] EXCEPT !.st = "REP"]
+                              ELSE C.cf[d][n].bl[i]]]]]]
+
 (***************************************************************************)
 (* Scan (scan.c) without usable inodes: files are matched by path + size   *)
 (* + time stamp.  opts: [nocopy, force_empty, force_zero, keep_past]       *)
@@ -332,7 +340,8 @@ ReadOutcome(M, fs, d, b) ==
        THEN [ok |-> TRUE, v |-> fs[d][b.n].b[b.i]] ELSE [ok |-> FALSE, v |-> "Z"]
 
 SyncStripe(M, fs, par, p, now, force_full, rlen) ==
-    LET blk == Eager([d \in D |-> BlockAt(M, d, p)])
+    LET red == "red" \in DOMAIN M /\ M.red
+        blk == Eager([d \in D |-> BlockAt(M, d, p)])
         info == InfoAt(M, p)
         rd == Eager([d \in D |-> IF HasFile(blk[d]) THEN ReadOutcome(M, fs, d, blk[d]) ELSE [ok |-> TRUE, v |-> "Z"]])
         files == {d \in D : HasFile(blk[d])}
@@ -347,7 +356,9 @@ SyncStripe(M, fs, par, p, now, force_full, rlen) ==
         err == readerr # {} \/ repchanged # {}
         needs == \/ force_full \/ (info.p /\ info.bad)
                  \/ \E d \in D : blk[d].st \in {"REP", "DEL"}
-                 \/ \E d \in good : blk[d].st = "CHG" /\ (~IsUnique(blk[d].h) \/ hash(d) # blk[d].h)
+                 \* with a reduced hash size (hashsize < 16) no hash is taken as "unique" (elem.h:621), so a CHG block always
+                 \* makes the stripe need its parity
+                 \/ \E d \in good : blk[d].st = "CHG" /\ (red \/ ~IsUnique(blk[d].h) \/ hash(d) # blk[d].h)
         \* the hash of every CHG block that was read is stored at once (sync.c:1015-1017), also when the stripe is skipped
         M1 == [M EXCEPT !.cf = [d \in D |-> IF d \in good /\ blk[d].st = "CHG"
                                             THEN [M.cf[d] EXCEPT ![blk[d].n].bl[blk[d].i].h = hash(d)] ELSE M.cf[d]]]
@@ -432,7 +443,8 @@ Prehash(M, fs, lo, hi) ==
 (* Sync: C = content on disk, fs0 = data at scan time, fs1 = data when the stripes are read.
    opts = [force_full, force_empty, force_zero, nocopy]; srcs = copy-source choice *)
 SyncResult(C, fs0, fs1, par, now, opts, srcs) ==
-    LET L0 == IF opts.nocopy THEN ForceNoCopy(ClearPast(C)) ELSE ClearPast(C)
+    LET realloc == "force_realloc" \in DOMAIN opts /\ opts.force_realloc
+        L0 == IF opts.nocopy THEN ForceNoCopy(ClearPast(C)) ELSE IF realloc THEN ForceRealloc(ClearPast(C)) ELSE ClearPast(C)
         refused == \/ (~opts.force_empty /\ EmptyInterlockL(L0, fs0, srcs, IF "links" \in DOMAIN opts THEN opts.links ELSE NoLinks))
                    \/ (~opts.force_zero /\ ZeroInterlock(L0, fs0))
         M0 == Scan(L0, fs0, srcs, TRUE)
@@ -440,8 +452,12 @@ SyncResult(C, fs0, fs1, par, now, opts, srcs) ==
         lo0 == IF "bstart" \in DOMAIN opts THEN opts.bstart ELSE 0
         hi0 == IF "bcount" \in DOMAIN opts /\ opts.bcount # 0 /\ lo0 + opts.bcount < bm THEN lo0 + opts.bcount ELSE bm
         pre == IF "prehash" \in DOMAIN opts /\ opts.prehash THEN Prehash(M0, fs0, lo0, hi0) ELSE [M |-> M0, skip |-> FALSE, nmism |-> 0, nconv |-> 0]
-        M == WithIndex(pre.M)
-        small == ~opts.force_full /\ \E l \in Levels : Len(par[l]) < UsedMax(M)
+        M == WithIndex(pre.M) @@ [red |-> ("reduced" \in DOMAIN opts /\ opts.reduced)]
+        \* "a parity file is smaller than the recorded state requires": the code compares the size it believes the file has,
+        \* which with a format-3 content file (split parity or reduced hash size) is the RECORDED size, not the size of the
+        \* file on disk (parity.c:195, 228): then a lost or truncated parity file is never noticed (finding F12)
+        smallreal == ~opts.force_full /\ ~realloc /\ \E l \in Levels : Len(par[l]) < UsedMax(M)
+        small == smallreal /\ ~("v3" \in DOMAIN opts /\ opts.v3)
         par1 == Resize(par, bm)
         \* a SIGINT/SIGTERM stops the run gracefully after the stripe being processed (opts.stop = position + 1, 0 = none)
         \* -S/-B: only the stripes bstart .. bstart+bcount-1 are processed (bcount = 0: to the end); the parity files
@@ -458,13 +474,14 @@ SyncResult(C, fs0, fs1, par, now, opts, srcs) ==
         resized == ~("v3" \in DOMAIN opts /\ opts.v3) \/ \E l \in Levels : Len(par[l]) # bm
         presave == IF scanchg \/ resized THEN Normalize(M) ELSE C
         en == {p \in lo..(bmp - 1) : StripeEnabled(M, p, opts.force_full)}
-    IN IF ~SrcsOK(L0, fs0, srcs, opts.nocopy) THEN [C |-> C, par |-> par, out |-> [exit |-> "bad-copy-source", err |-> 0, silent |-> 0]]
-       ELSE IF refused \/ small \/ lo > bm THEN [C |-> C, par |-> par, out |-> [exit |-> "refused", err |-> 0, silent |-> 0]]
-       ELSE IF pre.skip THEN [C |-> IF ~opts.kill_after /\ (scanchg \/ pre.nconv > 0) THEN Normalize(pre.M) ELSE C, par |-> par,
+        must == IF refused THEN "interlock" ELSE IF smallreal THEN "parity-too-small" ELSE "no"     \* what C14 demands
+    IN IF ~SrcsOK(L0, fs0, srcs, opts.nocopy) THEN [C |-> C, par |-> par, must |-> must, out |-> [exit |-> "bad-copy-source", err |-> 0, silent |-> 0]]
+       ELSE IF refused \/ small \/ lo > bm THEN [C |-> C, par |-> par, must |-> must, out |-> [exit |-> "refused", err |-> 0, silent |-> 0]]
+       ELSE IF pre.skip THEN [C |-> IF ~opts.kill_after /\ (scanchg \/ pre.nconv > 0) THEN Normalize(pre.M) ELSE C, par |-> par, must |-> must,
                               out |-> [exit |-> "prehash-stop", err |-> 0, silent |-> pre.nmism]]
        ELSE [C |-> IF opts.kill_after THEN presave
                    ELSE IF (en = {} \/ (r.aborted /\ r.ndone = 0)) /\ ~scanchg /\ ~resized THEN C ELSE Normalize(r.M),
-             par |-> r.par,
+             par |-> r.par, must |-> must,
              out |-> [exit |-> IF r.aborted THEN "abort" ELSE IF r.err + r.silent = 0 THEN "ok" ELSE "error",
                       err |-> r.err, silent |-> r.silent]]
 
@@ -511,11 +528,15 @@ CheckRead(C, fs, d, b) ==
 
 (* Returns [ok, bad (disks with a bad block), ood (bad blocks whose recovered content is not trusted),
             buf (block contents to write back), perr (parity levels found wrong), parfix (recomputed vector)] *)
-NoExt == [stamp |-> {}, blocks |-> {}]
+NoExt == [stamp |-> {}, blocks |-> {}, reduced |-> FALSE]
 (* ext: what -i DIR adds to the search by size and time stamp (ext.stamp: file records [b, mt, sz]) and what
    --test-import-content DIR offers by content (ext.blocks: block values, looked up by hash) *)
+(* ext.reduced: the array uses a hash size below 16 bytes; then the special values ZERO and INVALID and "a hash that
+   stands for one content only" are not recognised at all (elem.h:579-628: hash_is_zero, hash_is_invalid and
+   hash_is_unique all answer no), and every recorded value is compared like a hash *)
 CheckStripeX(C, fs, par, p, present0, ext) ==
-    LET present == {l \in present0 : p + 1 <= Len(par[l])}      \* a parity file that is too short gives a read error
+    LET red == "reduced" \in DOMAIN ext /\ ext.reduced
+        present == {l \in present0 : p + 1 <= Len(par[l])}      \* a parity file that is too short gives a read error
         blk == Eager([d \in D |-> BlockAt(C, d, p)])
         files == {d \in D : HasFile(blk[d])}
         rd == Eager([d \in D |-> IF d \in files THEN CheckRead(C, fs, d, blk[d]) ELSE [ok |-> TRUE, v |-> "Z"]])
@@ -543,14 +564,15 @@ CheckStripeX(C, fs, par, p, present0, ext) ==
         V1 == {d \in F1 : blk[d].st \in {"BLK", "REP"}}
         s1 == RepairStep(par, p, F1, V1, buf1, present, blk, lens)
         ood1 == {d \in bad : blk[d].st = "CHG" /\
-                   \/ blk[d].h = "INVALID"
-                   \/ (blk[d].h = "ZERO" /\ s1.buf[d] = "Z")
-                   \/ (IsUnique(blk[d].h) /\ HashOf(s1.buf[d], lens[d]) = blk[d].h)}
+                   IF red THEN HashOf(s1.buf[d], lens[d]) = blk[d].h
+                   ELSE \/ blk[d].h = "INVALID"
+                        \/ (blk[d].h = "ZERO" /\ s1.buf[d] = "Z")
+                        \/ (IsUnique(blk[d].h) /\ HashOf(s1.buf[d], lens[d]) = blk[d].h)}
         \* strategy 2: the parity still holds the state before the interrupted sync
         unsynced == {d \in D : blk[d].st \in {"CHG", "REP", "DEL"}}
-        zeroed == {d \in unsynced : blk[d].st = "CHG" /\ blk[d].h = "ZERO"}
+        zeroed == {d \in unsynced : ~red /\ blk[d].st = "CHG" /\ blk[d].h = "ZERO"}
         \* the old content of CHG / deleted blocks with a trusted past hash is taken from imported content when offered
-        oldimp == {d \in unsynced \ zeroed : blk[d].st \in {"CHG", "DEL"} /\ IsUnique(blk[d].h)
+        oldimp == {d \in unsynced \ zeroed : ~red /\ blk[d].st \in {"CHG", "DEL"} /\ IsUnique(blk[d].h)
                                              /\ \E v \in ext.blocks : HashOf(v, LenOf(v)) = blk[d].h}
         F2 == (unsynced \ (zeroed \cup oldimp)) \cup {d \in bad : blk[d].st = "BLK"}
         V2 == {d \in bad : blk[d].st = "BLK"}
@@ -719,7 +741,8 @@ FixRangeF(C, fs0, par, present, flt, rg, ext) ==
         isel(d, n) == n \in actset[d]
         allf == UNION {{<<d, n>> : n \in DOMAIN C.cf[d]} : d \in D}
         unrec == {x \in allf : isel(x[1], x[2]) /\ fo[x[1]][x[2]].damaged /\ fo[x[1]][x[2]].finished}
-        empty0 == {x \in allf : x[2] \in sel[x[1]] /\ C.cf[x[1]][x[2]].sz = 0 /\ (x[2] \notin DOMAIN fs[x[1]] \/ fs[x[1]][x[2]].sz # 0)}
+        empty0 == {x \in allf : RangeOf(rg, bm) # {} /\ x[2] \in sel[x[1]] /\ C.cf[x[1]][x[2]].sz = 0
+                                 /\ (x[2] \notin DOMAIN fs[x[1]] \/ fs[x[1]][x[2]].sz # 0)}
         recov == {x \in allf : isel(x[1], x[2]) /\ fo[x[1]][x[2]].fixed /\ fo[x[1]][x[2]].finished} \cup empty0
         \* files that fix had to create and could not finish are removed again (check.c:1860-1885); this includes
         \* the files created and then left alone because of -e/-b
@@ -776,8 +799,10 @@ CheckResultX(C, fs, par, present, audit, rg, ext) ==
         derr == {<<p, d>> \in (0..(bm - 1)) \X D : d \in R[p].bad} \cup {y \in SizeErrors(C, fs) : y[1] \in rng}
         perr == {<<p, l>> \in (0..(bm - 1)) \X Levels : l \in R[p].perr \cup R[p].rderr}
         nunrec == Cardinality({p \in 0..(bm - 1) : R[p].bad # {} /\ (~R[p].ok \/ R[p].ood # {})})
+        \* empty files (like links and empty directories) are looked at after the stripes, inside state_check_process, which is
+        \* not entered at all when there is no stripe to process (check.c:2051 "skip degenerated cases")
         missing0 == {<<d, n>> \in UNION {{<<d, n>> : n \in DOMAIN C.cf[d]} : d \in D} :
-                        C.cf[d][n].sz = 0 /\ (n \notin DOMAIN fs[d] \/ fs[d][n].sz # 0)}
+                        rng # {} /\ C.cf[d][n].sz = 0 /\ (n \notin DOMAIN fs[d] \/ fs[d][n].sz # 0)}
     IN IF "bstart" \in DOMAIN rg /\ rg.bstart > bm THEN [exit |-> "none", derr |-> {}, perr |-> {}, nunrec |-> 0] ELSE
        [exit |-> IF audit THEN (IF derr = {} /\ missing0 = {} THEN "ok" ELSE "error")
                  ELSE IF nunrec # 0 THEN "unrecoverable"
@@ -820,7 +845,19 @@ ScrubResult(C0, fs, par, sel, now, present) ==
         R == Eager([p \in sel |-> ScrubStripe(C, fs, par, p, now)])
         empty == \A q \in 1..Len(C0.info) : ~C0.info[q].p
     IN IF empty \/ present # Levels THEN [C |-> C0, out |-> [exit |-> "none", derr |-> {}, perr |-> {}, marked |-> {}]] ELSE
-       [C |-> [cf |-> C0.cf, del |-> C0.del, info |-> [q \in 1..Len(C0.info) |-> IF (q - 1) \in sel THEN R[q - 1].info ELSE C0.info[q]]],
+       \* a stripe waiting for the hash migration that is scrubbed without any error gets the new-function hash of the data
+       \* just read in EVERY file block (scrub.c:601-607), also in a CHG block, whose hash otherwise stands for the data
+       \* that is still in the parity: this happens only when the parity already matches the new data (a sync that updated
+       \* the parity and was killed before it saved the content), so the hash still is the hash of what the parity holds
+       LET migrated == {p \in sel : Rh(C0, p) /\ ~R[p].silent /\ ~R[p].err}
+           cf1 == IF migrated = {} THEN C0.cf ELSE
+                  [d \in D |-> [n \in DOMAIN C0.cf[d] |->
+                      [C0.cf[d][n] EXCEPT !.bl = [i \in 1..Len(C0.cf[d][n].bl) |->
+                          IF C0.cf[d][n].bl[i].pos \in migrated /\ C0.cf[d][n].bl[i].st = "CHG" /\ n \in DOMAIN fs[d] /\ i <= Len(fs[d][n].b)
+                          THEN [C0.cf[d][n].bl[i] EXCEPT !.h = HashOf(fs[d][n].b[i], BlkLen(C0.cf[d][n].sz, i))]
+                          ELSE C0.cf[d][n].bl[i]]]]]
+       IN
+       [C |-> [cf |-> cf1, del |-> C0.del, info |-> [q \in 1..Len(C0.info) |-> IF (q - 1) \in sel THEN R[q - 1].info ELSE C0.info[q]]],
         out |-> [exit |-> IF \E p \in sel : R[p].silent \/ R[p].err THEN "error" ELSE "ok",
                  derr |-> UNION {R[p].derr : p \in sel}, perr |-> UNION {R[p].perr : p \in sel},
                  marked |-> {p \in sel : R[p].silent}]]
